@@ -183,7 +183,7 @@ func cmdCheck(args []string) int {
 	for _, r := range results {
 		all = append(all, r.Obls...)
 	}
-	dischargeAll(all, pre, tmpdir, tmo, 8)
+	dischargeAll(all, pre, tmpdir, tmo, 10)
 
 	known := loadKnown()
 	violations := 0
